@@ -1086,6 +1086,18 @@ def range_cases(ctx, C, spec, active, dom, adom, hpr, rng, count, scale):
                                          continuous=cont,
                                          range_width_ge_2pow52=bool("lower" in spec and not cont and isinstance(spec["lower"], int)
                                                                     and spec["upper"] - spec["lower"] + 1 >= 2 ** 52)))
+    # ---- every category of a small categorical / ordinal domain round-trips, also those OUTSIDE the active
+    #      subset (data from past tasks is encoded w.r.t. the full range); checker only, no model case
+    if "categories" in spec and ncat <= 8:
+        for c_ in spec["categories"]:
+            okc, back = call(lambda: hpr.from_ndarray(hpr.to_ndarray({"x": c_}))["x"])
+            ctx.count(("member_round_trip", spec, active, c_), nontrivial=active is not None)
+            if not okc or not same_value(back, c_, False):
+                ctx.violation("property", "round trip of the member %r of %r (active %r) gives %r" % (c_, dom, adom, back),
+                              case=case, signature=dict(domain=dname, constructor=kind, op="round_trip",
+                                                        defect="round_trip_differs", continuous=False,
+                                                        member_in_active=bool(active is None or c_ in active["categories"]),
+                                                        encoding="one-hot" if onehot else "scalar"))
     # ---- random_config (real RandomState): member of the active range
     rs = np.random.RandomState(rng.randrange(2 ** 31))
     for _ in range(3):
